@@ -6,6 +6,7 @@ import FpgoVerif.Model.C04Spec
       kind `L`  operands are element lists      `nil` | `[]` | `[0.1.2]`
       kind `M`  operands are key→value maps     `nil` | `nilmap` | `{}` | `{0:10,1:11}`
       kind `S`  operands are key→stream maps    `nil` | `{}` | `{0:[0.1],1:[]}`
+      kind `P` / `R`  histories (as kind `Q` below) of Stream resp. MapSet operations on element lists / maps
       kind `Q`  like `S`, but the operands are built ONCE and the ops form a history on the same objects:
                 `union:r:a` (receiver = object #r, argument = object #a or `n` for nil) appends its result as a
                 new object; after every op ALL objects are printed (`<o0>|<o1>|…|<result>`), so a later
@@ -317,23 +318,107 @@ def stepQ (gobjs iobjs : List (GoMap Nat (List Nat))) (op : String) :
     | _, _ => none
   | _ => none
 
-def dumpQ (objs : List (GoMap Nat (List Nat))) : String := "|".intercalate (objs.map showSS)
+/-- generic history runner: `step gobjs iobjs op` gives the new object of each family -/
+def runHist {σ : Type} (showObj : σ → String) (step : List σ → List σ → String → Option (σ × σ))
+    (init : List σ) (ops : List String) : List (String × Option String) :=
+  let dump (objs : List σ) : String := "|".intercalate (objs.map showObj)
+  let rec go (gobjs iobjs : List σ) : List String → List (String × Option String)
+    | [] => []
+    | op :: rest =>
+      match step gobjs iobjs op with
+      | some (g, i) =>
+        let gobjs := gobjs ++ [g]
+        let iobjs := iobjs ++ [i]
+        (dump gobjs, some (dump iobjs)) :: go gobjs iobjs rest
+      | none => bad :: go gobjs iobjs rest
+  go init init ops
 
 def runQ (c : Case) : List (String × Option String) :=
   match allSome (c.opds.map parseSSOpd) with
   | none => c.ops.map (fun _ => bad)
-  | some o =>
-    let init := o.map ssv
-    let rec go (gobjs iobjs : List (GoMap Nat (List Nat))) : List String → List (String × Option String)
-      | [] => []
-      | op :: rest =>
-        match stepQ gobjs iobjs op with
-        | some (g, i) =>
-          let gobjs := gobjs ++ [g]
-          let iobjs := iobjs ++ [i]
-          (dumpQ gobjs, some (dumpQ iobjs)) :: go gobjs iobjs rest
-        | none => bad :: go gobjs iobjs rest
-    go init init c.ops
+  | some o => runHist showSS stepQ (o.map ssv) c.ops
+
+/-! ### kind P: histories of Stream operations; kind R: histories of MapSet operations -/
+
+def optArg {σ : Type} (objs : List σ) (a : String) : Option (Option σ) :=
+  if a = "n" then some none else (listGet? objs a).map some
+
+def stepP1 (objs : List (List Nat)) (op : String) : Option (List Nat) :=
+  match op.splitOn ":" with
+  | [name, r, a] =>
+    match listGet? objs r with
+    | some s =>
+      match name with
+      | "sort" => a.toNat?.map (fun k => Stream.sort (famLess k) s)
+      | "filter" => a.toNat?.map (fun k => Stream.filter (famPred k) s)
+      | "map" => a.toNat?.map (fun k => Stream.map (famMap k) s)
+      | _ =>
+        match optArg objs a with
+        | some arg =>
+          match name with
+          | "extend" => some (Stream.extend s [arg])
+          | "minus" => some (Stream.minus s arg)
+          | "inter" => some (Stream.intersection s arg)
+          | "concat" => arg.map (fun b => Stream.concat s [b])
+          | "append" => arg.map (fun b => Stream.concat s [b])
+          | "rmitem" => arg.map (fun b => Stream.removeItem s b)
+          | _ => none
+        | none => none
+    | none => none
+  | [name, r] =>
+    match listGet? objs r with
+    | some s =>
+      match name with
+      | "distinct" => some (Stream.distinct s)
+      | "reverse" => some (Stream.reverse s)
+      | "clone" => some (Stream.clone s)
+      | _ => none
+    | none => none
+  | _ => none
+
+/-- the Stream methods used in histories have ONE model for both families -/
+def stepP (gobjs iobjs : List (List Nat)) (op : String) : Option (List Nat × List Nat) :=
+  match stepP1 gobjs op, stepP1 iobjs op with
+  | some g, some i => some (g, i)
+  | _, _ => none
+
+def runP (c : Case) : List (String × Option String) :=
+  match allSome (c.opds.map parseListOpd) with
+  | none => c.ops.map (fun _ => bad)
+  | some o => runHist showList stepP (o.map lst) c.ops
+
+def stepR1 (objs : List (GoMap Nat Nat)) (op : String) : Option (GoMap Nat Nat) :=
+  match op.splitOn ":" with
+  | [name, r, a] =>
+    match listGet? objs r with
+    | some m =>
+      match name with
+      | "add" => (parseList a).map (fun l => MapSet.add 0 m l)
+      | "rmkeys" => (parseList a).map (fun l => MapSet.removeKeys m l)
+      | "rmvals" => (parseList a).map (fun l => MapSet.removeValues m l)
+      | "mapval" => a.toNat?.map (fun k => MapSet.mapValue (famVal k) m)
+      | _ =>
+        match optArg objs a with
+        | some arg =>
+          match name with
+          | "union" => some (MapSet.union m arg)
+          | "inter" => some (MapSet.intersection m arg)
+          | "minus" => some (MapSet.minus m arg)
+          | _ => none
+        | none => none
+    | none => none
+  | ["clone", r] => (listGet? objs r).map MapSet.clone
+  | _ => none
+
+def stepR (gobjs iobjs : List (GoMap Nat Nat)) (op : String) : Option (GoMap Nat Nat × GoMap Nat Nat) :=
+  match stepR1 gobjs op, stepR1 iobjs op with
+  | some g, some i => some (g, i)
+  | _, _ => none
+
+def runR (c : Case) : List (String × Option String) :=
+  match allSome (c.opds.map parseMapOpd) with
+  | none => c.ops.map (fun _ => bad)
+  | some o => runHist showMap stepR (o.map mp) c.ops
 
 def showObs (r : String × Option String) : String :=
   match r.2 with
@@ -357,6 +442,8 @@ def runOp (c : Case) (op : String) : String × Option String :=
 def handle (line : String) : String :=
   let c := parseCase line
   if c.kind = "Q" then " | ".intercalate ((runQ c).map showObs)
+  else if c.kind = "P" then " | ".intercalate ((runP c).map showObs)
+  else if c.kind = "R" then " | ".intercalate ((runR c).map showObs)
   else " | ".intercalate (c.ops.map (fun op => showObs (runOp c op)))
 
 /-! ### Spec: what the property demands (membership laws, no duplicates, order of the first operand)
@@ -586,15 +673,16 @@ def firstChanged : Nat → List String → List String → Option Nat
   | j, a :: as, b :: bs => if a = b then firstChanged (j + 1) as bs else some j
   | _, _, _ => none
 
-/-- kind Q: the oracle keeps the objects AS THE REAL CODE PRINTED THEM; per op it demands twin agreement,
-    that no operand / earlier result changed, and the law of the new result w.r.t. the objects it was
-    computed from -/
-def judgeQgo (objs : List String) : List (String × String) → Option String
+/-- histories: the oracle keeps the objects AS THE REAL CODE PRINTED THEM; per op it demands twin agreement,
+    that no operand / earlier result changed, and (`law objs op result`) the law of the new result w.r.t.
+    the objects it was computed from -/
+def judgeHist (law : List String → String → String → Option String) (objs : List String) :
+    List (String × String) → Option String
   | [] => none
   | (op, ob) :: rest =>
     match parseObs ob with
     | none => some s!"{op}: unreadable observation '{ob}'"
-    | some (g, none) => if g = "bad-op" then judgeQgo objs rest else some s!"{op}: twin result missing"
+    | some (g, none) => if g = "bad-op" then judgeHist law objs rest else some s!"{op}: twin result missing"
     | some (g, some i) =>
       if g ≠ i then some s!"{op}: twin-mismatch generic={g} interface={i}" else
       let parts := g.splitOn "|"
@@ -603,21 +691,46 @@ def judgeQgo (objs : List String) : List (String × String) → Option String
       | some j => some s!"{op}: object #{j} (an operand or an earlier result the caller still holds) changed from {objs.getD j ""} to {parts.getD j ""}"
       | none =>
         let res := parts.getLast?.getD ""
-        let law : Option String :=
-          match op.splitOn ":" with
-          | [name, r, a] =>
-            match (listGet? objs r).bind parseSS with
-            | some recv =>
-              let arg : Option (Option (GoMap Nat (List Nat))) :=
-                if a = "n" then some none else ((listGet? objs a).bind parseSS).map some
-              match arg with
-              | some arg => specS [some recv, arg] ("ss." ++ name) res
-              | none => none
-            | none => none
-          | _ => none
-        match law with
+        match law objs op res with
         | some w => some s!"{op}: {w} (got {res})"
-        | none => judgeQgo parts rest
+        | none => judgeHist law parts rest
+
+def lawQ (objs : List String) (op res : String) : Option String :=
+  match op.splitOn ":" with
+  | [name, r, a] =>
+    match (listGet? objs r).bind parseSS with
+    | some recv =>
+      let arg : Option (Option (GoMap Nat (List Nat))) :=
+        if a = "n" then some none else ((listGet? objs a).bind parseSS).map some
+      match arg with
+      | some arg => specS [some recv, arg] ("ss." ++ name) res
+      | none => none
+    | none => none
+  | _ => none
+
+def lawP (objs : List String) (op res : String) : Option String :=
+  match op.splitOn ":" with
+  | [name, r, a] =>
+    if name = "minus" || name = "inter" || name = "rmitem" then
+      match (listGet? objs r).bind parseList, (listGet? objs a).bind parseList with
+      | some recv, some arg => specL [some recv, some arg] ("s." ++ name) res
+      | _, _ => none
+    else none
+  | ["distinct", r] =>
+    match (listGet? objs r).bind parseList with
+    | some recv => specL [some recv] "s.distinct" res
+    | none => none
+  | _ => none
+
+def lawR (objs : List String) (op res : String) : Option String :=
+  match op.splitOn ":" with
+  | [name, r, a] =>
+    if name = "union" || name = "inter" || name = "minus" then
+      match (listGet? objs r).bind parseMap, (listGet? objs a).bind parseMap with
+      | some recv, some arg => specM [some recv, some arg] ("m." ++ name) res
+      | _, _ => none
+    else none
+  | _ => none
 
 def zipOps : List String → List String → List (String × String)
   | o :: os, b :: bs => (o, b) :: zipOps os bs
@@ -632,7 +745,15 @@ def judge (line impl : String) : String :=
   let verdicts : List String :=
     if c.kind = "Q" then
       match allSome (c.opds.map parseSSOpd) with
-      | some o => (judgeQgo ((o.map ssv).map showSS) (zipOps c.ops obs)).toList
+      | some o => (judgeHist lawQ ((o.map ssv).map showSS) (zipOps c.ops obs)).toList
+      | none => []
+    else if c.kind = "P" then
+      match allSome (c.opds.map parseListOpd) with
+      | some o => (judgeHist lawP ((o.map lst).map showList) (zipOps c.ops obs)).toList
+      | none => []
+    else if c.kind = "R" then
+      match allSome (c.opds.map parseMapOpd) with
+      | some o => (judgeHist lawR ((o.map mp).map showMap) (zipOps c.ops obs)).toList
       | none => []
     else (zipOps c.ops obs).filterMap (fun p => judgeOp c p.1 p.2)
   match verdicts with
